@@ -444,7 +444,14 @@ func (*c27Engine) Generate(seed uint64, tier string) *Case {
 			})
 		}
 		var script []string
-		switch r.Intn(14) {
+		switch r.Intn(16) {
+		case 15:
+			// a generic class whose type parameter defaults to a user class; a rejected input reopens
+			// that class: what it added must not be reachable through the omitted type argument
+			script = []string{"class Sfo\n  def one: Int\n    1\n  end\nend", "class Sbx[V, Y = Sfo]\n  def pick(y: Y): Y\n    y\n  end\nend", "class Sfo\n  def two: Int\n    2\n  end\nend\n" + invalid(), "sbx := Sbx::[Int]()", "println \"T:s22:${sbx.pick(Sfo()).two}\"", "println \"T:s23:${sbx.pick(Sfo()).one}\""}
+		case 14:
+			// a caller through a parent-typed parameter is compiled before the subclass exists
+			script = []string{"class Spc\n  def who: Int\n    1\n  end\nend\ndef swho2(x: Spc): Int\n  x.who\nend", "class Spd < Spc\n  def who: Int\n    2\n  end\nend", "println \"T:s21:${swho2(Spd())} ${swho2(Spc())}\""}
 		case 13:
 			// the builtin library (the enhance! macro of Std::Kernel) is imported by the first input;
 			// when that input is rejected the import has to happen again
